@@ -5,7 +5,12 @@ use nom::{
 
 use crate::intermediate::*;
 
-use super::{common::optional_comma, constraint::constraints, sequence::sequence_component, *};
+use super::{
+    common::optional_comma,
+    constraint::constraints,
+    sequence::{extension_group, sequence_component},
+    *,
+};
 
 /// Tries to parse an ASN1 SET
 ///
@@ -29,7 +34,7 @@ pub fn set(input: Input<'_>) -> ParserResult<'_, ASN1Type> {
                     )),
                     opt(terminated(extension_marker, opt(char(COMMA)))),
                     opt(many0(terminated(
-                        skip_ws_and_comments(sequence_component),
+                        skip_ws_and_comments(alt((extension_group, sequence_component))),
                         optional_comma,
                     ))),
                 )),
